@@ -7,7 +7,9 @@
 //!   scenarios  — hand-built blocks that exercise every documented allocation rule at least once
 //!                (split with remainder, capped "each", amount 0, over-balance, 0:0 with and
 //!                without an etching, pointer to OP_RETURN, cenotaph burn with mint, cenotaph
-//!                etching, no eligible output, chains inside one block), same probe.
+//!                etching, no eligible output, chains inside one block), same probe;
+//!   rtx        — randomized rune traffic: every block spends live runic outputs with edicts over
+//!                the runes they hold (the shared generator almost never does), same probe.
 //!
 //! Probe lines (see lean/Driver/IxRunesupply.lean):
 //!   ix.rs.begin <previous impl runes rows>               state for the spec-level replay
@@ -574,6 +576,146 @@ fn scenario(out: &mut Streams, dist: &mut Dist, scratch: &Path, case: u64, varia
   s.dist.hit("scn_all_outputs_none_eligible");
 }
 
+
+/// randomized rune traffic: every block spends live runic outputs with edicts over the runes they
+/// hold (ids from the inputs, `0:0`, known, unknown; amounts 0 / 1 / half / all / all+1 / huge;
+/// output any or "all outputs"), mints live runes, etches (reserved names), points anywhere,
+/// sprinkles OP_RETURN outputs and damages one runestone in ten into a cenotaph
+fn random_traffic(out: &mut Streams, dist: &mut Dist, scratch: &Path, case: u64, rng: &mut Rng, nblocks: u64) {
+  let node = Node::new("regtest", scratch);
+  let flags = Flags { sats: false, addr: false, tx: false, ins: false, runes: true };
+  let ix = env::open(&node, scratch, flags, &[], true);
+  let mut g = Gen::new(Rng::new(0), node.core.state().network);
+  let genesis = node.block_at(0);
+  g.absorb(&genesis, 0);
+  out.emit("cfg sats=0 addr=0 tx=0 ins=0 runes=1 first_ins=0 jubilee=110 first_rune=0", "ok");
+  emit::emit_block(out, 0, &genesis, g.network, &g.txs);
+  out.emit("endblock", "ok");
+  let mut s = Scn { node, ix, g, ps: PState::default(), flags, out, dist, case };
+  let mut funds: Vec<OutPoint> = Vec::new();
+  for _ in 0..2 {
+    funds.push(op(s.block(vec![])[0], 0));
+  }
+  for _ in 0..nblocks {
+    let h = s.node.height() + 1;
+    let bals: Vec<(OutPoint, Vec<(RuneId, u128)>)> = s.ix.index.get_rune_balances().unwrap();
+    let runes: Vec<RuneId> = s.ix.index.runes().unwrap().into_iter().map(|(id, _)| id).collect();
+    let mut free: Vec<(OutPoint, Vec<(RuneId, u128)>)> = bals;
+    let mut txs: Vec<Transaction> = Vec::new();
+    let ntx = 1 + rng.below(3);
+    for ti in 0..ntx {
+      // inputs
+      let mut inputs: Vec<OutPoint> = Vec::new();
+      let mut held: Vec<(RuneId, u128)> = Vec::new();
+      let nrunic = rng.below(4).min(free.len() as u64);
+      for _ in 0..nrunic {
+        let k = rng.below(free.len() as u64) as usize;
+        let (o, row) = free.swap_remove(k);
+        inputs.push(o);
+        for (id, a) in row {
+          match held.iter_mut().find(|(i, _)| *i == id) {
+            Some(e) => e.1 += a,
+            None => held.push((id, a)),
+          }
+        }
+      }
+      // an output of an earlier transaction of this block (balances unknown to the generator)
+      if ti > 0 && rng.chance(1, 2) {
+        let prev: &Transaction = &txs[rng.below(txs.len() as u64) as usize];
+        let v = rng.below(prev.output.len() as u64) as u32;
+        let o = OutPoint { txid: prev.compute_txid(), vout: v };
+        if !prev.output[v as usize].script_pubkey.is_op_return() && !txs.iter().any(|t| t.input.iter().any(|i| i.previous_output == o)) && !inputs.contains(&o) {
+          inputs.push(o);
+          s.dist.hit("rtx_in_block_input");
+        }
+      }
+      if inputs.is_empty() || rng.chance(1, 3) {
+        if let Some(f) = funds.pop() {
+          inputs.push(f);
+        }
+      }
+      if inputs.is_empty() {
+        continue;
+      }
+      // outputs
+      let nplain = 1 + rng.below(4) as usize;
+      let mut outs: Vec<ScriptBuf> = (0..nplain).map(|k| if rng.chance(1, 5) { op_return(b"d") } else if k % 2 == 0 { p2tr(1 + k as u8) } else { p2wpkh(1 + k as u8) }).collect();
+      if rng.chance(5, 6) {
+        let n = (outs.len() + 1) as u32;
+        let eligible = outs.iter().filter(|o| !o.is_op_return()).count() as u128;
+        let etching = if rng.chance(1, 5) {
+          s.dist.hit("rtx_etching");
+          Some(Etching {
+            divisibility: None,
+            premine: match rng.below(3) { 0 => None, 1 => Some(0), _ => Some(1 + rng.below(1000) as u128) },
+            rune: None,
+            spacers: None,
+            symbol: None,
+            terms: if rng.chance(1, 2) { Some(Terms { amount: Some(1 + rng.below(50) as u128), cap: Some(rng.below(4) as u128), height: (None, None), offset: (None, None) }) } else { None },
+            turbo: false,
+          })
+        } else {
+          None
+        };
+        let mint = if !runes.is_empty() && rng.chance(1, 3) { Some(*rng.pick(&runes)) } else { None };
+        let pointer = if rng.chance(1, 2) { Some(rng.below(u64::from(n)) as u32) } else { None };
+        let mut edicts = Vec::new();
+        for _ in 0..rng.below(5) {
+          let (id, bal) = match rng.below(10) {
+            0..=5 if !held.is_empty() => *rng.pick(&held),
+            6 => (RuneId::default(), 500),
+            7 if !runes.is_empty() => (*rng.pick(&runes), 10),
+            8 => (RuneId { block: u64::from(h) + 5, tx: 1 }, 10),
+            _ if !held.is_empty() => *rng.pick(&held),
+            _ => (RuneId::default(), 100),
+          };
+          let amount = match rng.below(10) {
+            0 | 8 | 9 => 0,
+            1 => 1,
+            2 => bal / 2,
+            3 => bal,
+            4 => bal + 1,
+            5 => u128::MAX,
+            6 => bal / (eligible.max(1)) + rng.below(2) as u128,
+            _ => rng.below(bal as u64 + 2) as u128,
+          };
+          let output = match rng.below(12) {
+            0..=3 => n,
+            4 => n + 1, // makes the runestone a cenotaph
+            _ => rng.below(u64::from(n)) as u32,
+          };
+          if output == n {
+            s.dist.hit(if amount == 0 { "rtx_edict_split" } else { "rtx_edict_each" });
+            if amount == 0 && eligible > 0 && bal % eligible != 0 && held.iter().any(|(i, _)| *i == id) {
+              s.dist.hit("rtx_edict_split_remainder_on_inputs");
+            }
+          }
+          if amount > bal && held.iter().any(|(i, _)| *i == id) {
+            s.dist.hit("rtx_edict_over_input_balance");
+          }
+          edicts.push(Edict { id, amount, output });
+        }
+        let mut script = rs(edicts, etching, mint, pointer);
+        if rng.chance(1, 10) {
+          script = damaged(script);
+          s.dist.hit("rtx_damaged");
+        }
+        let pos = rng.below(outs.len() as u64 + 1) as usize;
+        outs.insert(pos, script);
+      } else {
+        s.dist.hit("rtx_no_runestone");
+      }
+      if !held.is_empty() {
+        s.dist.hit("rtx_tx_with_runic_inputs");
+      }
+      txs.push(tx(&inputs, outs));
+      s.dist.hit("rtx_tx");
+    }
+    let ids = s.block(txs);
+    funds.push(op(ids[0], 0));
+  }
+}
+
 fn main() {
   let args = Args::parse();
   match args.stream.as_str() {
@@ -591,6 +733,21 @@ fn main() {
         // case 0 is always the fixed scenario; later cases scale the amounts
         let variant = if case == 0 { 0 } else { rng.below(50) };
         scenario(&mut out, &mut dist, &scratch, case, variant);
+      }
+      let _ = std::fs::remove_dir_all(&scratch);
+      dist.write(&args.out);
+      out.finish();
+    }
+    "rtx" => {
+      let mut out = Streams::create(&args.out);
+      let mut dist = Dist::default();
+      let scratch = args.out.join("scratch");
+      std::fs::create_dir_all(&scratch).unwrap();
+      let mut rng = Rng::new(args.seed);
+      let nblocks = args.get("blocks").map(|v| v.parse().unwrap()).unwrap_or(30u64);
+      for case in 0..args.cases {
+        let mut r = rng.fork();
+        random_traffic(&mut out, &mut dist, &scratch, case, &mut r, nblocks);
       }
       let _ = std::fs::remove_dir_all(&scratch);
       dist.write(&args.out);
